@@ -210,3 +210,68 @@ def deframe_strict(stream):
         frames.append((t, stream[pos + 19:pos + length]))
         pos += length
     return frames, None, stream[pos:]
+
+
+# ---------------------------------------------------------------- UPDATE, neutral structural decode
+def parse_prefixes(data, add_path=False, maxlen=32):
+    out = []
+    pos = 0
+    while pos < len(data):
+        pid = None
+        if add_path:
+            if pos + 4 > len(data):
+                raise ValueError('truncated path id')
+            pid = struct.unpack('!I', data[pos:pos + 4])[0]
+            pos += 4
+        if pos >= len(data):
+            raise ValueError('truncated prefix')
+        plen = data[pos]
+        if plen > maxlen:
+            raise ValueError('prefix length %d' % plen)
+        n = (plen + 7) // 8
+        raw = data[pos + 1:pos + 1 + n]
+        if len(raw) != n:
+            raise ValueError('prefix overruns')
+        pos += 1 + n
+        out.append((plen, raw) if pid is None else (plen, raw, pid))
+    return out
+
+
+def parse_update(body, add_path=False):
+    """(withdrawn, attrs, nlri): withdrawn/nlri = [(bitlen, raw octets)], attrs = [(flags, code, value)]"""
+    if len(body) < 4:
+        raise ValueError('UPDATE shorter than 4 octets')
+    wl = struct.unpack('!H', body[:2])[0]
+    if 2 + wl + 2 > len(body):
+        raise ValueError('withdrawn length overruns')
+    wd = body[2:2 + wl]
+    al = struct.unpack('!H', body[2 + wl:4 + wl])[0]
+    if 4 + wl + al > len(body):
+        raise ValueError('attribute length overruns')
+    ad = body[4 + wl:4 + wl + al]
+    nl = body[4 + wl + al:]
+    attrs = []
+    pos = 0
+    while pos < len(ad):
+        if pos + 3 > len(ad):
+            raise ValueError('truncated attribute header')
+        flags, code = ad[pos], ad[pos + 1]
+        if flags & 0x10:
+            if pos + 4 > len(ad):
+                raise ValueError('truncated attribute header')
+            ln = struct.unpack('!H', ad[pos + 2:pos + 4])[0]
+            pos += 4
+        else:
+            ln = ad[pos + 2]
+            pos += 3
+        val = ad[pos:pos + ln]
+        if len(val) != ln:
+            raise ValueError('attribute %d overruns' % code)
+        pos += ln
+        attrs.append((flags, code, val))
+    return parse_prefixes(wd, add_path), attrs, parse_prefixes(nl, add_path)
+
+
+def prefix_text(plen, raw):
+    b = (raw + b'\x00\x00\x00\x00')[:4]
+    return '%d.%d.%d.%d/%d' % (b[0], b[1], b[2], b[3], plen)
